@@ -555,6 +555,12 @@ class FakeImage:
         return FakeImageFile()
 
 
+# the pixel / size obligations (C16-C18) run the tool on PREFIXES of a picture (a few symbolic data bytes stand for the
+# first bytes of a full-size file), so "the PNG holds fewer rows than announced" is an artefact there; the damaged-file
+# obligations (C19), where the byte string IS the file, switch the contract on
+VEF_PILLOW_CONTRACT = False
+
+
 def vef_case(type_byte, ndata, squashed=None, first_byte=0):
     """whole veftopng.start([in, out]).  squashed: None = raw data of ndata symbolic bytes, or a list of record byte
     lists (concrete count bytes and control bytes given as ints, payload as 'sym')"""
@@ -611,7 +617,7 @@ def vef_case(type_byte, ndata, squashed=None, first_byte=0):
                 # IDAT data holds fewer than width x height pixels raises OSError("image file is truncated")
                 holder["image_opened"] = True
                 w = holder.get("writer")
-                if w is None or w.bitmap is None or len(w.bitmap.cells) < w.width * w.height:
+                if VEF_PILLOW_CONTRACT and (w is None or w.bitmap is None or len(w.bitmap.cells) < w.width * w.height):
                     raise Failure("OSError", "image file is truncated")
                 return RecImageFile()
 
